@@ -30,6 +30,37 @@ type lockWalker struct {
 	shardVar map[string]bool // identifiers bound to a *TemplatesShard
 	cacheVar string          // the receiver (the whole cache)
 	calls    map[string][]string
+	file     *ast.File // for inlining helper methods of the same receiver type (rLockAll(), ...)
+	recv     string
+	depth    int
+}
+
+// helperEvents: the events of a method <recv>.<name> of the same file that is not one of the tabulated cache functions,
+// walked on the fly so that a refactoring into small helpers does not hide lock operations or map accesses
+func (w *lockWalker) helperEvents(name string) ([]string, bool) {
+	if w.file == nil || w.depth > 3 || name == "getShard" {
+		return nil, false
+	}
+	for _, d := range w.file.Decls {
+		fd, ok := d.(*ast.FuncDecl)
+		if !ok || fd.Name.Name != name || fd.Recv == nil || fd.Body == nil {
+			continue
+		}
+		rt := fd.Recv.List[0].Type
+		if st, ok := rt.(*ast.StarExpr); ok {
+			rt = st.X
+		}
+		if id, ok := rt.(*ast.Ident); !ok || id.Name != w.recv {
+			continue
+		}
+		sub := &lockWalker{shardVar: map[string]bool{}, calls: w.calls, file: w.file, recv: w.recv, depth: w.depth + 1}
+		if len(fd.Recv.List[0].Names) > 0 {
+			sub.cacheVar = fd.Recv.List[0].Names[0].Name
+		}
+		sub.stmts(fd.Body.List)
+		return append(sub.events, sub.deferred...), true
+	}
+	return nil, false
 }
 
 func (w *lockWalker) shardExpr(e ast.Expr) bool {
@@ -75,6 +106,13 @@ func (w *lockWalker) expr(e ast.Expr, write bool) {
 					w.events = append(w.events, ev...)
 					return true
 				}
+				// a helper method of the cache itself
+				if id, ok := se.X.(*ast.Ident); ok && id.Name == w.cacheVar && w.cacheVar != "" {
+					if ev, ok := w.helperEvents(se.Sel.Name); ok {
+						w.events = append(w.events, ev...)
+						return true
+					}
+				}
 			}
 			if id, ok := x.Fun.(*ast.Ident); ok && id.Name == "len" && len(x.Args) == 1 && w.templatesOf(x.Args[0]) {
 				w.events = append(w.events, "PRead")
@@ -104,7 +142,7 @@ func (w *lockWalker) stmts(list []ast.Stmt) {
 	for _, st := range list {
 		switch s := st.(type) {
 		case *ast.DeferStmt:
-			sub := &lockWalker{shardVar: w.shardVar, cacheVar: w.cacheVar, calls: w.calls}
+			sub := &lockWalker{shardVar: w.shardVar, cacheVar: w.cacheVar, calls: w.calls, file: w.file, recv: w.recv, depth: w.depth}
 			sub.expr(s.Call, false)
 			w.deferred = append(sub.events, w.deferred...)
 		case *ast.AssignStmt:
@@ -132,7 +170,7 @@ func (w *lockWalker) stmts(list []ast.Stmt) {
 		case *ast.RangeStmt:
 			// for _, shard := range m { ... }  -> PAll [body]
 			if id, ok := s.X.(*ast.Ident); ok && id.Name == w.cacheVar && s.Value != nil {
-				sub := &lockWalker{shardVar: map[string]bool{exprString(s.Value): true}, cacheVar: w.cacheVar, calls: w.calls}
+				sub := &lockWalker{shardVar: map[string]bool{exprString(s.Value): true}, cacheVar: w.cacheVar, calls: w.calls, file: w.file, recv: w.recv, depth: w.depth}
 				for k := range w.shardVar {
 					sub.shardVar[k] = true
 				}
@@ -200,7 +238,7 @@ func genLocks() {
 				continue
 			}
 			found = true
-			w := &lockWalker{shardVar: map[string]bool{}, calls: calls}
+			w := &lockWalker{shardVar: map[string]bool{}, calls: calls, file: f, recv: lf.recv}
 			if len(fd.Recv.List[0].Names) > 0 {
 				w.cacheVar = fd.Recv.List[0].Names[0].Name
 			}
